@@ -149,11 +149,11 @@ def main(argv):
             gen = extract.instantiate(tpath, REPO, variant)
             base = gen.lines
             fns = list(gen.functions)
-            if variant != 'main':
+            if variant != 'main' and vargs.get(variant):
                 # a case variant verifies only the function named in its --verify-function argument
                 vf = [a for a in vargs.get(variant, []) if '::' in a or a.isidentifier()]
                 fns = [f for f in fns if f in vargs.get(variant, [])]
-            else:
+            elif variant == 'main':
                 # functions marked proved-by-cases are external_body in main
                 fns = [f for f in fns if 'proved-by-cases' not in '\n'.join(base[max(0, gen.functions[f]['out_lines'][0] - 3):gen.functions[f]['out_lines'][0] + 1])]
             if os.environ.get('KILL_FNS'):
@@ -165,7 +165,7 @@ def main(argv):
                     idx = len(jobs)
                     d = os.path.join(work, unit + '_' + variant)
                     os.makedirs(d, exist_ok=True)
-                    jobs.append(('\n'.join(lines) + '\n', d, idx, fn, [], 400 if unit == 'u_graph' else 60))
+                    jobs.append(('\n'.join(lines) + '\n', d, idx, fn, [], int(os.environ.get('KILL_RLIMIT', '0')) or (400 if unit == 'u_graph' else 360)))
                     meta.append({'fn': fn, 'variant': variant, 'op': name, 'at': '%s:%s' % (file, line), 'before': base[li].strip()[:120]})
         res = {}
         with concurrent.futures.ThreadPoolExecutor(max_workers=int(os.environ.get('KILL_JOBS', '12'))) as ex:
